@@ -302,7 +302,7 @@ def _check_dp17(repo, r2, s, enc, ft):
     stores = []
     for name, ms in ft.mutations().items():
         for (mn, kind, payload, subs) in ms:
-            if kind == "append" and len(subs) == 2:
+            if kind in ("append", "extend") and len(subs) == 2:
                 stores.append((name, mn, payload, subs))
     if not r2.require(bool(stores), enc, "DP17 bucket store", "DP17._Enc no longer places chunk entries into buckets"):
         return 0
